@@ -184,6 +184,11 @@ def errors(repo):
     if not re.search(r"child\s*=\s*\+\+ERROR_with_lines\s*;", rs):
         raise ValueError("error.c: heap insertion `child = ++ERROR_with_lines` not found")
     m = re.search(r"if\s*\(\s*what->severity\s*>=\s*SEVERITY_EXIT\s*\|\|(.*?)\)\s*\{\s*ERROR_flush_message_buffer", rs, re.S)
+    full_continues = False
+    if not m:
+        # second shape: the fatal test alone, then `if( <full> ) { flush; start again }` — the run goes on
+        m = re.search(r"if\s*\(\s*((?:ERROR_string\s*\+|ERROR_with_lines)[^{]*?)\)\s*\{\s*ERROR_flush_message_buffer\s*\(\s*\)\s*;\s*ERROR_start_message_buffer\s*\(\s*\)\s*;\s*\}", _strip_comments(rs), re.S)
+        full_continues = bool(m)
     if not m:
         raise ValueError("error.c: flush rule of the buffered branch not found")
     cond = re.sub(r"\s+", " ", m.group(1))
@@ -233,7 +238,7 @@ def errors(repo):
             raise ValueError(f"{rel}: success() should have exactly one literal return")
         hooks += hk
     return dict(env=env, heap=heap, alloc=alloc, span=span, bounded=bounded, clamp=clamp, space_guard=space_guard,
-                count_guard=count_guard, next_guard=next_guard, next_writes=next_writes, ents=ents, name_guard=name_guard,
+                count_guard=count_guard, full_continues=full_continues, next_guard=next_guard, next_writes=next_writes, ents=ents, name_guard=name_guard,
                 fail=int(mf[0]), succeed=int(ms[0]), usage=usage, hooks=hooks)
 
 
@@ -836,7 +841,8 @@ def _block_at(text, i):
 
 _ACTS = [(r"^(v?fprintf\s*\(\s*(error_file|stderr)\b|fputc\s*\([^;]*,\s*(error_file|stderr)\s*\))", "print"),
          (r"^ERROR_v?printf\s*\(", "buf"), (r"^ERROR_nexterror\s*\(\s*\)", "commit"),
-         (r"^ERRORoccurred\s*=\s*true$", "setOccurred"), (r"^(ERROR_flush_message_buffer|ERRORflush_messages)\s*\(\s*\)$", "flush")]
+         (r"^ERRORoccurred\s*=\s*true$", "setOccurred"), (r"^(ERROR_flush_message_buffer|ERRORflush_messages)\s*\(\s*\)$", "flush"),
+         (r"^ERROR_start_message_buffer\s*\(\s*\)$", "restart")]
 
 
 def _acts(block, what):
@@ -871,9 +877,16 @@ def _sev_branches(text, what):
     m4 = re.search(r"if\s*\(\s*what->severity\s*>=\s*SEVERITY_DUMP\s*\)\s*\{\s*abort\s*\(\s*\)\s*;\s*\}\s*else\s*\{\s*exit\s*\(\s*EXPRESS_fail\s*\([^;]*\)\s*\)\s*;\s*\}\s*$", c)
     if not m4:
         raise ValueError(f"{what}: abort()/exit( EXPRESS_fail ) decision not found")
-    if text[e3:].strip():
-        raise ValueError(f"{what}: code after the exit decision: {text[e3:].strip()[:60]!r}")
-    return {"pre": text[:m.start()], "err": _acts(a, what), "warn": _acts(b, what), "exit": _acts(c[:m4.start()], what), "alsoWhenFull": bool(m3.group(1))}
+    full = []
+    rest = text[e3:]
+    m5 = re.match(r"\s*if\s*\(\s*(?:ERROR_string\s*\+|ERROR_with_lines)[^{]*\)\s*\{", rest)
+    if m5:
+        fb, e5 = _block_at(rest, m5.end() - 1)
+        full = _acts(fb, what + "/full")
+        rest = rest[e5:]
+    if rest.strip():
+        raise ValueError(f"{what}: code after the exit decision: {rest.strip()[:60]!r}")
+    return {"pre": text[:m.start()], "err": _acts(a, what), "warn": _acts(b, what), "exit": _acts(c[:m4.start()], what), "alsoWhenFull": bool(m3.group(1)), "full": full}
 
 
 def _functions(text):
@@ -1110,7 +1123,7 @@ def extract(repo):
     A(f"  heapSize := {e['heap']}, allocated := {e['alloc']}, span := {e['span']},")
     A(f"  boundedPrint := {str(e['bounded']).lower()}, clampOnTruncation := {str(e['clamp']).lower()}, nextGuard := {str(e['next_guard']).lower()}, nextWrites := {e['next_writes']},")
     sgd_ = e["space_guard"]
-    A(f"  spaceGuard := {_opt(None if sgd_ is None else f'({sgd_[0]}, {sgd_[1]})')}, countGuard := {_opt(e['count_guard'])} }}")
+    A(f"  spaceGuard := {_opt(None if sgd_ is None else f'({sgd_[0]}, {sgd_[1]})')}, countGuard := {_opt(e['count_guard'])}, fullContinues := {str(e['full_continues']).lower()} }}")
     A("")
     A("/-- `LibErrors[]`: (code name, severity is at most SEVERITY_WARNING, warning-class name or none for NULL) -/")
     A("def libErrorClasses : List (String × Bool × Option String) := [")
@@ -1196,7 +1209,7 @@ def extract(repo):
     A("def searchStarters : List String := [" + ", ".join(f'"{x}"' for x in bumpers) + "]")
     def _fn(r):
         acts = lambda l: "[" + ", ".join("." + a for a in l) + "]"
-        return f"{{ errActs := {acts(r['err'])}, warnActs := {acts(r['warn'])}, exitActs := {acts(r['exit'])}, alsoWhenFull := {str(r['alsoWhenFull']).lower()} }}"
+        return f"{{ errActs := {acts(r['err'])}, warnActs := {acts(r['warn'])}, exitActs := {acts(r['exit'])}, alsoWhenFull := {str(r['alsoWhenFull']).lower()}, fullActs := {acts(r['full'])} }}"
     acts = lambda l: "[" + ", ".join("." + a for a in l) + "]"
     rep = dict(xd["reports"])
     A("/-- error.c / express.c / fedex.c: the branches of the reporting functions as action sequences, the severities of LibErrors,")
